@@ -12,6 +12,9 @@
 use std::borrow::Borrow;
 use std::marker::PhantomData;
 
+/// So that `hash_map::RandomState` keeps resolving when this module stands in for `std::collections::hash_map`.
+pub use std::collections::hash_map::RandomState;
+
 /// Maximum number of entries in one map. Proof harnesses pick the smallest capacity they need
 /// through the compile-time environment variable `VERIF_MAP_CAP` (default 12): every map operation
 /// is a loop over all slots, so the capacity is a direct factor in the size of the SAT query.
